@@ -1,7 +1,7 @@
 (* Extract.v - extraction of the executable model for the correspondence check.
    Directives: only those of ExtrOcamlBasic (bool, option, list, prod, unit, sumbool -> OCaml natives).
    nat, Z, positive stay the extracted inductive types. *)
-From Msm Require Import Run Ids Puml PumlGuard Store Frontends.
+From Msm Require Import Run Ids Puml PumlGuard Store Frontends Spec.
 Require Extraction.
 Require Import ExtrOcamlBasic.
 Extraction Language OCaml.
@@ -9,4 +9,5 @@ Extraction "msm_model.ml" run run_op build init_rnode snapshot default_fuel doc_
   parse_row cleanup_token parse_action count_actions count_transitions parse_guard gshow
   sstep wf_op init_store destroy_all cells
   run_wop init_world
-  elab_euml elab_basic basic_tag frow_tag frow_guard frow_action.
+  elab_euml elab_basic basic_tag frow_tag frow_guard frow_action
+  spec_trace coreb plain_opb.
